@@ -72,12 +72,33 @@ func TestVerifC01ProxySessions(t *testing.T) {
 			continue
 		}
 		var aBytes int64
-		A.sink.Store(func(b []byte) { atomic.AddInt64(&aBytes, int64(len(b))) })
+		// rounds 0 and 1: A's download is itself a self-describing stream, and A stops
+		// reading for 6.5 s in the middle of it (a client that is suspended, or whose path
+		// is out, for a while) and then carries on: nothing may be missing afterwards
+		verifyA := round < 2
+		aTag := uint64(0xA000 + round)
+		aChk := &vlib.StreamChecker{Tag: aTag, Dir: 1}
+		var amu sync.Mutex
+		A.sink.Store(func(b []byte) {
+			for atomic.LoadInt32(&A.stall) == 1 {
+				time.Sleep(20 * time.Millisecond)
+			}
+			if verifyA {
+				amu.Lock()
+				aChk.Check(b)
+				amu.Unlock()
+			}
+			atomic.AddInt64(&aBytes, int64(len(b)))
+		})
 		mu.Lock()
 		bySid[pa.Sid] = A
 		mu.Unlock()
-		pa.reply(200, vMatchBody(A.offer, fmt.Sprintf("ws://%s/a%d/stream", relay.hostport(), round)))
-		if !A.waitOpen(30*time.Second) || A.send("start") != nil {
+		aMode, aStart := "stream", "start"
+		if verifyA {
+			aMode, aStart = "pstream", fmt.Sprintf("start:%x", aTag)
+		}
+		pa.reply(200, vMatchBody(A.offer, fmt.Sprintf("ws://%s/a%d/%s", relay.hostport(), round, aMode)))
+		if !A.waitOpen(30*time.Second) || A.send(aStart) != nil {
 			A.close("pc")
 			res.Inconcl(name + ": session A did not open")
 			continue
@@ -86,6 +107,23 @@ func TestVerifC01ProxySessions(t *testing.T) {
 			A.close("pc")
 			res.Inconcl(name + ": session A's download did not start")
 			continue
+		}
+		if verifyA {
+			atomic.StoreInt32(&A.stall, 1)
+			time.Sleep(6500 * time.Millisecond)
+			atomic.StoreInt32(&A.stall, 0)
+			before := atomic.LoadInt64(&aBytes)
+			// what was held back during the stall, and more, must arrive intact
+			vlib.WaitFor(20*time.Second, func() bool { return atomic.LoadInt64(&aBytes) > before+(3<<20) })
+			amu.Lock()
+			afail, aoff := aChk.Fail, aChk.Off
+			amu.Unlock()
+			res.Obs("proxy_session_download_bytes_verified_across_a_stall", int64(aoff))
+			if afail != "" {
+				res.Violatef("stream:wrong-byte:proxy-session-download", map[string]interface{}{"case": name, "bytes_verified": aoff}, "session A's download through the proxy, after the client had stopped reading for 6.5 s and carried on: %s", afail)
+			} else if atomic.LoadInt64(&aBytes) > before+(3<<20) {
+				res.Obs("proxy_session_downloads_intact_after_stall", 1)
+			}
 		}
 		// session B: matched while A downloads; its answer is applied by the harness
 		pb := br.nextPoll(60 * time.Second)
@@ -181,6 +219,7 @@ func TestVerifC01ProxySessions(t *testing.T) {
 		vlib.WaitFor(20*time.Second, func() bool { return vSlots() <= 1 })
 	}
 	res.RequireObs("proxy_session_rounds_verified", int64(rounds/2))
+	res.RequireObs("proxy_session_downloads_intact_after_stall", 1)
 }
 
 // ---- the copy loop itself, with scripted carriers ----------------------------------
